@@ -212,7 +212,9 @@ func c16Run(s *sim.Sim, p *sim.Params) {
 	cfg.MaxConnectionsPerRoom = []int{0, 1, 2, 3}[s.Choose(sim.SWork, 4)]
 	hotRoomPick := s.Choose(sim.SWork, 3) == 0
 	if hotRoomPick {
-		cfg.MaxConnectionsPerRoom = 1 + s.Choose(sim.SWork, 2)
+		// one or two seats, or no seat limit at all (members then come and go freely, so the room
+		// keeps becoming empty while others are joining it)
+		cfg.MaxConnectionsPerRoom = []int{1, 2, 0, 1, 2, 0, 3}[s.Choose(sim.SWork, 7)]
 	}
 	cfg.MessageQueueSize = 1 + s.Choose(sim.SWork, 4)
 	cfg.MessageQueueStrategy = []QueueStrategy{QueueStrategyDropOldest, QueueStrategyDropNewest, QueueStrategyBlock}[s.Choose(sim.SWork, 3)]
@@ -561,6 +563,21 @@ func (w *c16world) checkViews(when string) {
 		desc := fmt.Sprintf("connection of client %v (registered=%v): own view %v, rooms containing it %v", clientOf(w, conn), registered[conn], keys(own), keys(in))
 		if !registered[conn] {
 			s.Probe("disconnected-connection-checked")
+			// a disconnected connection receives nothing: at this quiescent point its disconnect
+			// completed long ago, so nothing offered to it now may end up in its outbound queue
+			// (several attempts: an implementation that picks among ready alternatives at random
+			// must refuse every time)
+			if when == "after-workload" {
+				queued := len(conn.send)
+				for i := 0; i < 6; i++ {
+					conn.Send([]byte(`{"type":"json","data":{"note":"after-disconnect"}}`))
+					conn.SendJSON(map[string]string{"note": "after-disconnect"})
+				}
+				if len(conn.send) > queued {
+					s.Fail("oracle", "queued-after-disconnect", fmt.Sprintf("%s: %d messages offered to a connection whose disconnect had completed were accepted into its outbound queue (%d -> %d)", when, 12, queued, len(conn.send)))
+				}
+				s.Probe("send-after-disconnect-tried")
+			}
 			if len(in) > 0 {
 				s.Fail("invariant", "disconnected-in-room", when+": a disconnected connection is still a member of a room: "+desc)
 			}
